@@ -213,7 +213,15 @@ def eval_doc(case):
                 cl.add("directive:%YAML-1.2")
         text = header + text
     except yaml.YAMLError as e:
-        # the renderer only writes valid flow YAML; a composer error here is a generator defect, not a finding
+        # the renderer only writes valid flow YAML.  When the LibYAML composer accepts the text, the rejection is what the
+        # pure-Python reader does to a well-formed document; otherwise it is a generator defect, not a finding
+        if have_c():
+            try:
+                yaml.compose(text, Loader=yaml.CSafeLoader)
+            except yaml.YAMLError:
+                raise AssertionError("generated document does not compose: %r: %s" % (text, e))
+            return Eval([Failure("well-formed-document-rejected-by-reader:py:%s" % exc_key(e), "%s\ntext=%r" % (exc_msg(e), text[:400]))],
+                        sorted(cl), nontrivial=True, ident=text, evals=2)
         raise AssertionError("generated document does not compose: %r: %s" % (text, e))
     try:
         ref, ordered = ref_construct.evaluate(node)
@@ -223,6 +231,8 @@ def eval_doc(case):
     except ref_construct.RefError as e:
         ref, ordered, ref_err = None, set(), str(e)
         cl.add("ill-shaped:%s" % str(e).split(" (")[0][:40])
+    if text.count("<<") > 50:
+        cl.add("merge:more-than-50-in-one-document")
     if ref_err is None:
         cl.add("well-shaped")
         if "merge" in cl:
@@ -305,9 +315,14 @@ def docs():
     user = st.tuples(st.just("m"), st.sampled_from([False, True]), st.sampled_from([None, None, "set"]), st.lists(user_pair, min_size=1, max_size=4))
     family = st.tuples(st.lists(src, min_size=2, max_size=3), st.tuples(st.just("ml"), st.lists(alias_, min_size=2, max_size=3)),
                        st.lists(user, min_size=1, max_size=4)).map(lambda t: ("q", False, t[0] + [t[1]] + t[2]))
+    # the same family with many users (a shared merge source is reused tens or hundreds of times in one document)
+    wide = st.tuples(st.lists(src, min_size=2, max_size=3), st.tuples(st.just("ml"), st.lists(alias_, min_size=2, max_size=3)),
+                     st.lists(user, min_size=1, max_size=3), st.sampled_from([30, 52, 70, 130])).map(
+        lambda t: ("q", False, t[0] + [t[1]] + t[2] * t[3]))
     # a root sequence: definitions first, uses later, so that aliases find completed anchors
-    return st.one_of(st.lists(body, min_size=1, max_size=6).map(lambda items: ("q", False, items)),
-                     st.lists(body, min_size=1, max_size=6).map(lambda items: ("q", False, items)), family)
+    bodies = st.lists(body, min_size=1, max_size=6).map(lambda items: ("q", False, items))
+    # (st.one_of deduplicates identical branches, so the weights are drawn explicitly)
+    return st.sampled_from([0] * 40 + [1] * 20 + [2]).flatmap(lambda i: (bodies, family, wide)[i])
 
 
 def eval_wrap(case):
@@ -315,11 +330,12 @@ def eval_wrap(case):
     return ev
 
 
+
 def arms(tier):
     return [Arm("docs", eval_wrap, docs, quick=20000, thorough=400000)]
 
 
-MIN_CLASS_COUNTS = {"well-shaped:with-merge": 600, "well-shaped:with-merge-list>=2": 200, "ill-shaped:unhashable key": 100}
+MIN_CLASS_COUNTS = {"merge:more-than-50-in-one-document": 60, "well-shaped:with-merge": 600, "well-shaped:with-merge-list>=2": 200, "ill-shaped:unhashable key": 100}
 REQUIRED_CLASSES = ["directive:%YAML-1.2", "merge", "merge:list>=2", "merge:alias", "merge:several-keys", "alias-to:map", "alias-to:maplist", "set",
                     "omap", "pairs", "quoted-merge-key", "complex-key", "well-shaped:with-merge", "well-shaped:with-merge-list>=2", "dup-key"]
 
